@@ -39,6 +39,7 @@
 import BacVerif.Model.Route
 import BacVerif.Lemmas.RouteGlobal
 import BacVerif.Lemmas.RouteUnicast
+import BacVerif.Lemmas.RouteDiscovery
 set_option linter.unusedSimpArgs false
 namespace BacVerif.C06
 open BacVerif BacVerif.Route
@@ -709,6 +710,181 @@ example : demoT ∈ demoWarm'.stations ∧ demoWarm'.lans.Nodup ∧ demoWarm'.wf
     demoWarm'.routers.nextHop demoWarm.lan = some [0x0e] ∧
     demoT.cache.get (demoT.adapter demoWarm'.lan).net demoWarm.lan = some [0x0e] ∧
     demoWarm'.warm demoWarm.lan = true := by decide
+
+
+/-! ## cold caches: paths discovered on demand (line of networks)
+
+  `Route.runWorld` is the STATEFUL global simulator: every node is a `Route.St` (cache, parked
+  packets), a frame is handed to every hearing node in turn (`Route.recv`, the function the
+  lockstep runs against the real code), the frames a node sends are queued FIFO.
+  `Lemmas/RouteDiscovery.lean` proves, by induction over a line of ANY length, that the
+  Who-Is-Router wave travels up a cold line to the router connected to `d`, the I-Am-Router
+  answer travels back (unicast on the last network, relayed as broadcasts further down), and
+  what every router and every overhearing station has learned (`warmHops`) — `wave`,
+  `discovery_line` (= discovery_warms_path).  `warm_line` shows the result satisfies `T.warm d`,
+  so the warm theorems apply to the released packet.
+  Assumptions, stated honestly: a LINE (two-port routers, up port first), all router caches
+  empty and the asker without a path to `d` (other stations' caches arbitrary), ONE discovery at
+  a time (nothing else in flight), the asker listed first among the stations of its network;
+  the flight of the released packet is evaluated with `deliverAll`, i.e. caches frozen at their
+  post-discovery state, exactly as in the warm theorems (a concrete fully stateful run is
+  checked by kernel evaluation below).  General trees (Who-Is floods every branch) and
+  concurrent discoveries are NOT proved — the end-to-end history stream checks them. -/
+
+
+/-- the all-cold line as a world of node states, the asker `A` holding the parked packet -/
+def coldWorld (lan0 : Nat) (A : Station) (S0 : List Station) (hops : List Hop) (dd : Dadr)
+    (er : Bool) (prio : Nat) (data : Bytes) : World :=
+  stationSt lan0 [(dd.net, [rtp (some dd) none none er prio data 255])] A :: unitWorld lan0 S0 hops
+
+/-- … which is the flattened line with `A`'s `originate` applied -/
+theorem coldWorld_eq (lan0 : Nat) (A : Station) (S0 : List Station) (hops : List Hop) :
+    ((lineTree lan0 (A :: S0) hops).nodes.map mkSt).tail = unitWorld lan0 S0 hops ∧
+    ((lineTree lan0 (A :: S0) hops).nodes.map mkSt).head? = some (stationSt lan0 [] A) := by
+  rw [lineTree_world]
+  simp [unitWorld]
+
+/-- **cold_line_unicast_once** — `tree_unicast_once` WITHOUT the warm-cache hypothesis, on a line
+    of networks `lan0 – R1 – … – Rn – …` whose caches are ALL empty (routers; the asker has no
+    path to `d`), one discovery at a time:
+    (1) `originate` parks the packet and broadcasts Who-Is-Router;
+    (2) run in the stateful simulator the exchange settles after `n` frames with nothing handed
+        to any application, nothing parked, the internetwork = `warmLine` and the released
+        packet (addressed to the first router) as the only frame in flight;
+    (3) that packet is then delivered exactly once, to `t`, with source = `A`'s network and MAC
+        (caches frozen at their post-discovery state, as in the warm theorems). -/
+theorem cold_line_unicast_once (lan0 : Nat) (A : Station) (S0 : List Station) (h : Hop) (hs : List Hop)
+    (x : Hop) (t : Station) (er : Bool) (prio : Nat) (data : Bytes)
+    (hx : x ∈ h :: hs) (ht : t ∈ x.stations) (hd16 : x.lan < 65536)
+    (hnd : (lan0 :: (h :: hs).map (·.lan)).Nodup) (hcold : ∀ y ∈ h :: hs, y.cache = [])
+    (hA : A.cache.get (A.adapter lan0).net x.lan = none)
+    (hwf : (lineTree lan0 (A :: S0) (h :: hs)).wf [] = true) (hlen : (h :: hs).length ≤ 255) :
+    originate (stationSt lan0 [] A) (.remoteStation x.lan t.mac) er prio data =
+      (stationSt lan0 [(x.lan, [rtp (some (.rs x.lan t.mac)) none none er prio data 255])] A,
+       [.send (A.adapter lan0) .bcast (whoIsP none x.lan)]) ∧
+    ∃ n, runWorld n (coldWorld lan0 A S0 (h :: hs) (.rs x.lan t.mac) er prio data)
+        [⟨lan0, A.mac, .bcast, whoIsP none x.lan⟩] [] =
+      ((warmLine lan0 A S0 h hs x.lan).nodes.map mkSt,
+       [⟨lan0, A.mac, .to h.upMac, rtp (some (.rs x.lan t.mac)) none none er prio data 255⟩], []) ∧
+    deliverAll (warmLine lan0 A S0 h hs x.lan).nodes
+        ⟨lan0, A.mac, .to h.upMac, rtp (some (.rs x.lan t.mac)) none none er prio data 255⟩ =
+      [⟨x.lan, t.mac, ⟨.remoteStation lan0 A.mac, some (.localStation t.mac), er, prio, data⟩⟩] := by
+  have hdin : (Dadr.rs x.lan t.mac).net ∈ (h :: hs).map (·.lan) := List.mem_map_of_mem hx
+  have hok := wf_lineOk_top lan0 A S0 (h :: hs) hwf
+  obtain ⟨h1, n, h2⟩ := discovery_line lan0 A S0 h hs (.rs x.lan t.mac) er prio data (by simp) hdin hd16 hnd hcold hA hok
+  refine ⟨by simpa [coldWorld, Dadr.toAddr, Dadr.net] using h1, n, by simpa [coldWorld, Dadr.net] using h2, ?_⟩
+  have hr := cold_line_routed lan0 A S0 h hs (.rs x.lan t.mac) er prio data (by simp) hdin hnd hwf hlen
+    (by
+      intro m hm
+      simp only [Dadr.net, Dadr.rs.injEq, true_and] at hm
+      exact ⟨x, hx, rfl, hm ▸ List.mem_map_of_mem ht⟩)
+  simp only [Dadr.net] at hr
+  rw [hr]
+  -- exactly one station of the destination network has that MAC
+  have hskel := warmHops_skel x.lan (h :: hs) lan0 A.mac none
+  obtain ⟨x', hx', hsk⟩ := skel_mem hskel x hx
+  obtain ⟨hl', hst'⟩ := skel_station hsk
+  have hnd0 := hnd
+  simp only [List.nodup_cons] at hnd0
+  have hdl : x.lan ≠ lan0 := fun e => hnd0.1 (e ▸ List.mem_map_of_mem hx)
+  have hlans : (warmHops x.lan lan0 A.mac none (h :: hs)).map (·.lan) = (h :: hs).map (·.lan) := same_lans hskel
+  have hso : (warmLine lan0 A S0 h hs x.lan).stationsOn x.lan = x'.stations := by
+    simp only [warmLine, lineTree, NetTree.stationsOn, hdl, if_false]
+    exact hopsTree_stationsOn x.lan _ (by rw [hlans]; exact hnd0.2) x' hx' hl'
+  have hwfT : (warmLine lan0 A S0 h hs x.lan).wf [] = true := by
+    rw [warmLine, lineTree_wf_skel lan0 (A :: S0) _ (h :: hs) _ [] ?_ hskel]
+    · exact hwf
+    · simp only [List.map_cons, List.map_map]
+      congr 1
+      apply List.map_congr_left
+      intro s _
+      simp only [Function.comp]
+      split <;> simp [Station.learnD]
+  have hmem : t.mac ∈ x'.stations.map (·.mac) := hst' ▸ List.mem_map_of_mem ht
+  obtain ⟨t', ht', hmac⟩ := List.mem_map.mp hmem
+  have hnodup := NetTree.stationsOn_nodup (warmLine lan0 A S0 h hs x.lan) [] hwfT x.lan
+  rw [hso] at hnodup ⊢
+  simp only [rtExpect, lastLeg]
+  have hsel : lkSel (.to t.mac) = fun s => s.mac == t'.mac := by
+    funext s; simp [lkSel, hmac]
+  rw [hsel, filter_mac_single _ t' hnodup ht']
+  simp [rtUp, Link.toAddr, hmac]
+
+
+
+/-- **cold_line_remote_broadcast_once** — the same for a remote broadcast: after the discovery
+    has settled the released packet reaches every station of network `x.lan`, each exactly once,
+    and nobody else -/
+theorem cold_line_remote_broadcast_once (lan0 : Nat) (A : Station) (S0 : List Station) (h : Hop) (hs : List Hop)
+    (x : Hop) (er : Bool) (prio : Nat) (data : Bytes)
+    (hx : x ∈ h :: hs) (hd16 : x.lan < 65536)
+    (hnd : (lan0 :: (h :: hs).map (·.lan)).Nodup) (hcold : ∀ y ∈ h :: hs, y.cache = [])
+    (hA : A.cache.get (A.adapter lan0).net x.lan = none)
+    (hwf : (lineTree lan0 (A :: S0) (h :: hs)).wf [] = true) (hlen : (h :: hs).length ≤ 255) :
+    originate (stationSt lan0 [] A) (.remoteBroadcast x.lan) er prio data =
+      (stationSt lan0 [(x.lan, [rtp (some (.rb x.lan)) none none er prio data 255])] A,
+       [.send (A.adapter lan0) .bcast (whoIsP none x.lan)]) ∧
+    ∃ n, runWorld n (coldWorld lan0 A S0 (h :: hs) (.rb x.lan) er prio data)
+        [⟨lan0, A.mac, .bcast, whoIsP none x.lan⟩] [] =
+      ((warmLine lan0 A S0 h hs x.lan).nodes.map mkSt,
+       [⟨lan0, A.mac, .to h.upMac, rtp (some (.rb x.lan)) none none er prio data 255⟩], []) ∧
+    deliverAll (warmLine lan0 A S0 h hs x.lan).nodes
+        ⟨lan0, A.mac, .to h.upMac, rtp (some (.rb x.lan)) none none er prio data 255⟩ =
+      (x.stations.map (·.mac)).map
+        (fun m => ⟨x.lan, m, ⟨.remoteStation lan0 A.mac, some .localBroadcast, er, prio, data⟩⟩) := by
+  have hdin : (Dadr.rb x.lan).net ∈ (h :: hs).map (·.lan) := List.mem_map_of_mem hx
+  have hok := wf_lineOk_top lan0 A S0 (h :: hs) hwf
+  obtain ⟨h1, n, h2⟩ := discovery_line lan0 A S0 h hs (.rb x.lan) er prio data (by simp) hdin hd16 hnd hcold hA hok
+  refine ⟨by simpa [Dadr.toAddr, Dadr.net] using h1, n, by simpa [coldWorld, Dadr.net] using h2, ?_⟩
+  have hr := cold_line_routed lan0 A S0 h hs (.rb x.lan) er prio data (by simp) hdin hnd hwf hlen
+    (by intro m hm; simp at hm)
+  simp only [Dadr.net] at hr
+  rw [hr]
+  have hskel := warmHops_skel x.lan (h :: hs) lan0 A.mac none
+  obtain ⟨x', hx', hsk⟩ := skel_mem hskel x hx
+  obtain ⟨hl', hst'⟩ := skel_station hsk
+  have hnd0 := hnd
+  simp only [List.nodup_cons] at hnd0
+  have hdl : x.lan ≠ lan0 := fun e => hnd0.1 (e ▸ List.mem_map_of_mem hx)
+  have hlans : (warmHops x.lan lan0 A.mac none (h :: hs)).map (·.lan) = (h :: hs).map (·.lan) := same_lans hskel
+  have hso : (warmLine lan0 A S0 h hs x.lan).stationsOn x.lan = x'.stations := by
+    simp only [warmLine, lineTree, NetTree.stationsOn, hdl, if_false]
+    exact hopsTree_stationsOn x.lan _ (by rw [hlans]; exact hnd0.2) x' hx' hl'
+  rw [hso, ← hst']
+  have hf : x'.stations.filter (lkSel .bcast) = x'.stations := List.filter_eq_self.mpr (fun _ _ => rfl)
+  simp [rtExpect, lastLeg, hf, rtUp, Link.toAddr, List.map_map, Function.comp]
+
+/-! ### non-vacuity: a cold line of four networks -/
+
+/-- `1 –R1– 2 –R2– 3 –R3– 4`, every cache empty -/
+def demoHops : List Hop :=
+  [⟨0, [0x0a], 1, [0x0b], 0, [], 2, [⟨[5], true, true, []⟩]⟩,
+   ⟨0, [0x0c], 1, [0x0d], 1, [], 3, [⟨[6], false, false, []⟩, ⟨[7], true, true, []⟩]⟩,
+   ⟨0, [0x0e], 1, [0x0f], 0, [], 4, [⟨[8], true, true, []⟩, ⟨[9], false, true, []⟩]⟩]
+
+def demoA : Station := ⟨[1], true, true, []⟩
+
+example : (⟨0, [0x0e], 1, [0x0f], 0, [], 4, [⟨[8], true, true, []⟩, ⟨[9], false, true, []⟩]⟩ : Hop) ∈ demoHops ∧
+    (1 :: demoHops.map (·.lan)).Nodup ∧ (∀ y ∈ demoHops, y.cache = []) ∧
+    demoA.cache.get (demoA.adapter 1).net 4 = none ∧
+    (lineTree 1 (demoA :: [⟨[2], false, false, []⟩]) demoHops).wf [] = true ∧ demoHops.length ≤ 255 := by
+  decide
+
+
+
+/-- the whole thing run concretely in the STATEFUL simulator (caches keep evolving during the
+    flight of the released packet as well): station 01 of network 1 → station 09 of network 4.
+    After 6 frames only the released packet is in flight, nothing delivered yet; after 10 frames
+    the internetwork is silent and exactly one APDU has been handed up — to 09, from `1:01`. -/
+example :
+    let w := coldWorld 1 demoA [⟨[2], false, false, []⟩] demoHops (.rs 4 [9]) false 0 [0x10, 8]
+    let r6 := runWorld 6 w [⟨1, [1], .bcast, whoIsP none 4⟩] []
+    let r10 := runWorld 10 w [⟨1, [1], .bcast, whoIsP none 4⟩] []
+    r6.2.1 = [⟨1, [1], .to [0x0a], rtp (some (.rs 4 [9])) none none false 0 [0x10, 8] 255⟩] ∧ r6.2.2 = [] ∧
+    r10.2.1 = [] ∧
+    r10.2.2 = [⟨4, [9], ⟨.remoteStation 1 [1], some (.localStation [9]), false, 0, [0x10, 8]⟩⟩] := by
+  decide +kernel
+
 
 
 end BacVerif.C06
